@@ -27,14 +27,27 @@ func init() {
 // A platform tuple of the extracted table.
 type plat struct{ os, arch, variant string }
 
-// tableEval evaluates the extracted switch table (a restricted statement language: switch on a
-// field of the receiver with constant cases, if field == const, field = const, field = const + field)
-// on a tuple. ok=false when a statement outside that language is met.
+// tableEval evaluates the alias table, which is written in a small pure language over strings: the
+// fields of the receiver, parameters and locals; string constants and concatenation; comparisons with
+// ==, != joined by &&, ||, !; if / else, switch (with a tag or without), assignments (also tuple
+// assignments from a helper), return; calls of functions of the same package written in the same
+// language. ok=false when something outside that language is met — the rule is then undecided, not
+// wrong. Nothing of the program is run: the evaluator walks the syntax on abstract tuples of constants.
 type tableEval struct {
-	info *types.Info
-	recv types.Object
-	ok   bool
-	why  string
+	p     *core.Prog
+	info  *types.Info
+	recv  types.Object
+	env   map[types.Object]string
+	ok    bool
+	why   string
+	depth int
+	seen  map[*ast.FuncDecl]bool // helper bodies visited (for constant collection)
+}
+
+func (te *tableEval) fail(why string) {
+	if te.ok {
+		te.ok, te.why = false, why
+	}
 }
 
 func (te *tableEval) field(e ast.Expr) string {
@@ -43,7 +56,7 @@ func (te *tableEval) field(e ast.Expr) string {
 		return ""
 	}
 	id, isId := se.X.(*ast.Ident)
-	if !isId || te.info.Uses[id] != te.recv {
+	if !isId || te.recv == nil || te.info.Uses[id] != te.recv {
 		return ""
 	}
 	return se.Sel.Name
@@ -58,7 +71,7 @@ func (te *tableEval) get(p *plat, f string) string {
 	case "Variant":
 		return p.variant
 	}
-	te.ok, te.why = false, "field "+f+" is not part of the table"
+	te.fail("field " + f + " is not part of the table")
 	return ""
 }
 
@@ -71,8 +84,59 @@ func (te *tableEval) set(p *plat, f, v string) {
 	case "Variant":
 		p.variant = v
 	default:
-		te.ok, te.why = false, "field "+f+" is not part of the table"
+		te.fail("field " + f + " is not part of the table")
 	}
+}
+
+// call evaluates a call of a package function written in the table language.
+func (te *tableEval) call(p *plat, c *ast.CallExpr) ([]string, bool) {
+	id, ok := ast.Unparen(c.Fun).(*ast.Ident)
+	if !ok {
+		return nil, false
+	}
+	obj, ok := te.info.Uses[id].(*types.Func)
+	if !ok || te.p == nil || te.depth > 4 {
+		return nil, false
+	}
+	fn := te.p.SSA.FuncValue(obj)
+	if fn == nil {
+		return nil, false
+	}
+	syn := te.p.Syntax(fn)
+	if syn == nil || syn.Decl == nil || syn.Decl.Body == nil || syn.Decl.Recv != nil {
+		return nil, false
+	}
+	var params []types.Object
+	for _, f := range syn.Decl.Type.Params.List {
+		for _, nm := range f.Names {
+			params = append(params, syn.Pkg.TypesInfo.Defs[nm])
+		}
+	}
+	if len(params) != len(c.Args) {
+		return nil, false
+	}
+	env := map[types.Object]string{}
+	for i, a := range c.Args {
+		v, ok := te.strExpr(p, a)
+		if !ok {
+			return nil, false
+		}
+		env[params[i]] = v
+	}
+	if te.seen != nil {
+		te.seen[syn.Decl] = true
+	}
+	sub := &tableEval{p: te.p, info: syn.Pkg.TypesInfo, env: env, ok: true, depth: te.depth + 1, seen: te.seen}
+	var none plat
+	ret, res := sub.stmts(&none, syn.Decl.Body.List)
+	if !sub.ok {
+		te.fail(sub.why)
+		return nil, false
+	}
+	if !ret {
+		return nil, false
+	}
+	return res, true
 }
 
 func (te *tableEval) strExpr(p *plat, e ast.Expr) (string, bool) {
@@ -83,32 +147,125 @@ func (te *tableEval) strExpr(p *plat, e ast.Expr) (string, bool) {
 	if f := te.field(e); f != "" {
 		return te.get(p, f), true
 	}
-	if be, ok := e.(*ast.BinaryExpr); ok && be.Op == token.ADD {
-		a, ok1 := te.strExpr(p, be.X)
-		b, ok2 := te.strExpr(p, be.Y)
-		return a + b, ok1 && ok2
+	switch x := e.(type) {
+	case *ast.Ident:
+		if obj := te.info.Uses[x]; obj != nil {
+			if v, ok := te.env[obj]; ok {
+				return v, true
+			}
+		}
+	case *ast.BinaryExpr:
+		if x.Op == token.ADD {
+			a, ok1 := te.strExpr(p, x.X)
+			b, ok2 := te.strExpr(p, x.Y)
+			return a + b, ok1 && ok2
+		}
+	case *ast.CallExpr:
+		if res, ok := te.call(p, x); ok && len(res) == 1 {
+			return res[0], true
+		}
 	}
 	return "", false
 }
 
-func (te *tableEval) stmts(p *plat, list []ast.Stmt) {
-	for _, s := range list {
-		if !te.ok {
+func (te *tableEval) cond(p *plat, e ast.Expr) (bool, bool) {
+	e = ast.Unparen(e)
+	switch x := e.(type) {
+	case *ast.UnaryExpr:
+		if x.Op == token.NOT {
+			v, ok := te.cond(p, x.X)
+			return !v, ok
+		}
+	case *ast.BinaryExpr:
+		switch x.Op {
+		case token.LAND, token.LOR:
+			a, ok1 := te.cond(p, x.X)
+			b, ok2 := te.cond(p, x.Y)
+			if x.Op == token.LAND {
+				return a && b, ok1 && ok2
+			}
+			return a || b, ok1 && ok2
+		case token.EQL, token.NEQ:
+			a, ok1 := te.strExpr(p, x.X)
+			b, ok2 := te.strExpr(p, x.Y)
+			return (a == b) == (x.Op == token.EQL), ok1 && ok2
+		}
+	}
+	return false, false
+}
+
+// assign stores v into the field, parameter or local that lhs names.
+func (te *tableEval) assign(p *plat, lhs ast.Expr, v string, define bool) {
+	if f := te.field(lhs); f != "" {
+		te.set(p, f, v)
+		return
+	}
+	if id, ok := ast.Unparen(lhs).(*ast.Ident); ok {
+		if id.Name == "_" {
 			return
 		}
-		switch x := s.(type) {
-		case *ast.SwitchStmt:
-			if x.Init != nil || x.Tag == nil {
-				te.ok, te.why = false, "switch without a field tag"
-				return
+		obj := te.info.Uses[id]
+		if define || obj == nil {
+			if d := te.info.Defs[id]; d != nil {
+				obj = d
 			}
-			tag, ok := te.strExpr(p, x.Tag)
-			if !ok {
-				te.ok, te.why = false, "switch tag is not a field of the receiver"
-				return
+		}
+		if obj != nil {
+			if te.env == nil {
+				te.env = map[types.Object]string{}
+			}
+			te.env[obj] = v
+			return
+		}
+	}
+	te.fail("assignment target is not a field of the receiver, a parameter or a local")
+}
+
+// stmts evaluates a statement list; returned reports that a return statement was executed.
+func (te *tableEval) stmts(p *plat, list []ast.Stmt) (returned bool, results []string) {
+	for _, s := range list {
+		if !te.ok {
+			return false, nil
+		}
+		switch x := s.(type) {
+		case *ast.ReturnStmt:
+			var out []string
+			if len(x.Results) == 1 {
+				if c, isCall := ast.Unparen(x.Results[0]).(*ast.CallExpr); isCall {
+					if res, ok := te.call(p, c); ok {
+						return true, res
+					}
+				}
+			}
+			for _, e := range x.Results {
+				v, ok := te.strExpr(p, e)
+				if !ok {
+					te.fail("returned expression is outside the table language")
+					return false, nil
+				}
+				out = append(out, v)
+			}
+			return true, out
+		case *ast.BlockStmt:
+			if ret, res := te.stmts(p, x.List); ret {
+				return true, res
+			}
+		case *ast.SwitchStmt:
+			if x.Init != nil {
+				te.fail("switch with an init statement")
+				return false, nil
 			}
 			var def *ast.CaseClause
-			matched := false
+			var hit *ast.CaseClause
+			tag, hasTag := "", x.Tag != nil
+			if hasTag {
+				v, ok := te.strExpr(p, x.Tag)
+				if !ok {
+					te.fail("switch tag is outside the table language")
+					return false, nil
+				}
+				tag = v
+			}
 			for _, cl := range x.Body.List {
 				cc := cl.(*ast.CaseClause)
 				if cc.List == nil {
@@ -116,63 +273,125 @@ func (te *tableEval) stmts(p *plat, list []ast.Stmt) {
 					continue
 				}
 				for _, ce := range cc.List {
-					v, ok := te.strExpr(p, ce)
-					if !ok {
-						te.ok, te.why = false, "non-constant case"
-						return
+					match := false
+					if hasTag {
+						v, ok := te.strExpr(p, ce)
+						if !ok {
+							te.fail("non-constant case")
+							return false, nil
+						}
+						match = v == tag
+					} else {
+						v, ok := te.cond(p, ce)
+						if !ok {
+							te.fail("case condition is outside the table language")
+							return false, nil
+						}
+						match = v
 					}
-					if v == tag && !matched {
-						matched = true
-						te.stmts(p, cc.Body)
+					if match && hit == nil {
+						hit = cc
 					}
 				}
 			}
-			if !matched && def != nil {
-				te.stmts(p, def.Body)
+			if hit == nil {
+				hit = def
+			}
+			if hit != nil {
+				for _, st := range hit.Body {
+					if br, isBr := st.(*ast.BranchStmt); isBr && br.Tok == token.FALLTHROUGH {
+						te.fail("fallthrough")
+						return false, nil
+					}
+				}
+				if ret, res := te.stmts(p, hit.Body); ret {
+					return true, res
+				}
 			}
 		case *ast.IfStmt:
 			if x.Init != nil {
-				te.ok, te.why = false, "if with init"
-				return
+				te.fail("if with an init statement")
+				return false, nil
 			}
-			be, ok := ast.Unparen(x.Cond).(*ast.BinaryExpr)
-			if !ok || (be.Op != token.EQL && be.Op != token.NEQ) {
-				te.ok, te.why = false, "condition is not a field comparison"
-				return
+			v, ok := te.cond(p, x.Cond)
+			if !ok {
+				te.fail("condition is not a comparison of strings of the table")
+				return false, nil
 			}
-			a, ok1 := te.strExpr(p, be.X)
-			b, ok2 := te.strExpr(p, be.Y)
-			if !ok1 || !ok2 {
-				te.ok, te.why = false, "condition is not a field comparison"
-				return
-			}
-			if (a == b) == (be.Op == token.EQL) {
-				te.stmts(p, x.Body.List)
+			if v {
+				if ret, res := te.stmts(p, x.Body.List); ret {
+					return true, res
+				}
 			} else if x.Else != nil {
-				switch e := x.Else.(type) {
-				case *ast.BlockStmt:
-					te.stmts(p, e.List)
-				case *ast.IfStmt:
-					te.stmts(p, []ast.Stmt{e})
+				if ret, res := te.stmts(p, []ast.Stmt{x.Else}); ret {
+					return true, res
 				}
 			}
 		case *ast.AssignStmt:
-			if len(x.Lhs) != 1 || len(x.Rhs) != 1 || x.Tok != token.ASSIGN {
-				te.ok, te.why = false, "assignment form"
-				return
+			if x.Tok != token.ASSIGN && x.Tok != token.DEFINE {
+				te.fail("assignment form")
+				return false, nil
 			}
-			f := te.field(x.Lhs[0])
-			v, ok := te.strExpr(p, x.Rhs[0])
-			if f == "" || !ok {
-				te.ok, te.why = false, "assignment is not field = constant [+ field]"
-				return
+			define := x.Tok == token.DEFINE
+			if len(x.Rhs) == 1 && len(x.Lhs) > 1 {
+				c, isCall := ast.Unparen(x.Rhs[0]).(*ast.CallExpr)
+				if !isCall {
+					te.fail("tuple assignment from something that is not a call")
+					return false, nil
+				}
+				res, ok := te.call(p, c)
+				if !ok || len(res) != len(x.Lhs) {
+					te.fail("tuple assignment from a call outside the table language")
+					return false, nil
+				}
+				for i, l := range x.Lhs {
+					te.assign(p, l, res[i], define)
+				}
+				continue
 			}
-			te.set(p, f, v)
+			if len(x.Lhs) != len(x.Rhs) {
+				te.fail("assignment form")
+				return false, nil
+			}
+			vals := make([]string, len(x.Rhs))
+			for i, e := range x.Rhs {
+				v, ok := te.strExpr(p, e)
+				if !ok {
+					te.fail("assigned expression is outside the table language")
+					return false, nil
+				}
+				vals[i] = v
+			}
+			for i, l := range x.Lhs {
+				te.assign(p, l, vals[i], define)
+			}
+		case *ast.DeclStmt:
+			gd, ok := x.Decl.(*ast.GenDecl)
+			if !ok || gd.Tok != token.VAR {
+				te.fail("declaration outside the table language")
+				return false, nil
+			}
+			for _, sp := range gd.Specs {
+				vs := sp.(*ast.ValueSpec)
+				for i, nm := range vs.Names {
+					v := ""
+					if i < len(vs.Values) {
+						var okV bool
+						if v, okV = te.strExpr(p, vs.Values[i]); !okV {
+							te.fail("declaration outside the table language")
+							return false, nil
+						}
+					}
+					te.assign(p, nm, v, true)
+				}
+			}
+		case *ast.EmptyStmt:
 		default:
-			te.ok, te.why = false, fmt.Sprintf("statement %T is outside the table language", s)
-			return
+			te.fail(fmt.Sprintf("statement %T is outside the table language", s))
+			return false, nil
 		}
 	}
+	return false, nil
 }
 
 // tableConstants collects every string constant of the table, per field it is compared with or
@@ -212,8 +431,9 @@ func runC16(p *core.Prog, r *core.Report) {
 	info := syn.Pkg.TypesInfo
 	recv := info.Defs[syn.Decl.Recv.List[0].Names[0]]
 	fname := p.FuncName(fn)
+	helperDecls := map[*ast.FuncDecl]bool{}
 	eval := func(in plat) (plat, bool, string) {
-		te := &tableEval{info: info, recv: recv, ok: true}
+		te := &tableEval{p: p, info: info, recv: recv, ok: true, seen: helperDecls}
 		out := in
 		te.stmts(&out, syn.Decl.Body.List)
 		return out, te.ok, te.why
@@ -244,7 +464,23 @@ func runC16(p *core.Prog, r *core.Report) {
 	}
 	// (2) idempotence over the whole finite abstraction: every combination of the table's constants plus one
 	// value outside it per field
-	consts := append(tableConstants(info, syn.Decl.Body), "\x00other")
+	constSet := map[string]bool{}
+	for _, c := range tableConstants(info, syn.Decl.Body) {
+		constSet[c] = true
+	}
+	// the table may be spread over helper functions: their constants belong to it (the helpers were
+	// recorded while evaluating the documented aliases above)
+	for d := range helperDecls {
+		for _, c := range tableConstants(info, d.Body) {
+			constSet[c] = true
+		}
+	}
+	var consts []string
+	for c := range constSet {
+		consts = append(consts, c)
+	}
+	sort.Strings(consts)
+	consts = append(consts, "\x00other")
 	bad := ""
 	n := 0
 	for _, o := range consts {
